@@ -19,7 +19,10 @@ func InitGenesis(ctx sdk.Context, k keeper.Keeper, genState types.GenesisState) 
 			epoch.StartTime = ctx.BlockTime()
 		}
 
-		epoch.CurrentEpochStartHeight = ctx.BlockHeight()
+		// an epoch that is already running (exported state) keeps the height it started at
+		if !epoch.EpochCountingStarted {
+			epoch.CurrentEpochStartHeight = ctx.BlockHeight()
+		}
 
 		k.SetEpochInfo(ctx, epoch)
 	}
